@@ -676,6 +676,18 @@ def _subarray_like(x):
     return (-0.5 * float(np.sum(x ** 2)), x ** 2)
 
 
+def _record_like(x):
+    return (-0.5 * float(np.sum(x ** 2)), np.array([x[0], x[1], 1.0]), float(np.sum(x)))
+
+
+def _nested_record_like(x):
+    return (-0.5 * float(np.sum(x ** 2)), (np.array([x[0], 1.0]), 2.0), float(np.sum(x)))
+
+
+def _subarray_objects_like(x):
+    return (-0.5 * float(np.sum(x ** 2)), [np.array([x[0]]), np.array([x[1], 2.0])], float(np.sum(x)))
+
+
 BLOB_KINDS = {
     "none": (None, {}),
     "scalar-auto": (_scalar_like, {}),
@@ -684,7 +696,85 @@ BLOB_KINDS = {
     "tuple(array,str)-object": (_tuple_like, {}),
     "dict-object": (_dict_like, {}),
     "ragged-object": (_ragged_like, {"blobs_dtype": "object"}),
+    # record dtypes that CONTAIN references (dtype.kind == 'V', dtype.hasobject): an object field, the same inside a nested
+    # record, a sub-array of objects
+    "record+object-field": (_record_like, {"blobs_dtype": [("vec", object), ("s", float)]}),
+    "nested-record+object-field": (_nested_record_like, {"blobs_dtype": [("in", [("vec", object), ("t", float)]), ("s", float)]}),
 }
+
+# OPEN (reported to the coordinator, witness `F41_record_subarray_of_objects_alias`): numpy's copy.deepcopy does not descend into a
+# SUB-ARRAY of objects inside a record dtype ([("vs", object, (2,))]), so on the unchanged tree such blobs are still shared.  The
+# kind is kept out of the every-run suites until /repo is repaired or the finding is recorded; `record_oracle(OPEN_RECORD_DTYPES)`
+# and `blob_run("record+subarray-of-objects", …)` reproduce it.
+OPEN_BLOB_KINDS = {
+    "record+subarray-of-objects": (_subarray_objects_like, {"blobs_dtype": [("vs", object, (2,)), ("s", float)]}),
+}
+OPEN_RECORD_DTYPES = [[("vs", object, (2,)), ("s", float)]]
+
+RECORD_DTYPES = [
+    [("vec", object), ("s", float)],
+    [("in", [("vec", object), ("t", float)]), ("s", float)],
+    [("a", float), ("b", float, (2,))],
+    object,
+]
+
+
+def _record_value(dt, n, tag):
+    """an array of n entries of dtype dt whose every reference field holds a fresh float array"""
+    a = np.empty(n, dtype=dt)
+
+    def fill(view, base):
+        if view.dtype.names:
+            for j, name in enumerate(view.dtype.names):
+                fill(view[name], base + 10 * (j + 1))
+        elif view.dtype.hasobject:
+            for i, idx in enumerate(np.ndindex(view.shape)):
+                view[idx] = np.array([base + i, base + i + 0.5])
+        else:
+            view[...] = base
+    fill(a, float(tag))
+    return a
+
+
+def record_oracle(dtypes=None):
+    """StateManager-level, model-free: arrays whose dtype HOLDS references in any form (plain object, record with an object field,
+    nested record, sub-array of objects) through every accessor / mutator: nothing handed out shares memory with internal state,
+    and overwriting everything handed out (down to the arrays inside reference fields) changes no read.  Returns a description
+    of the first violation or None."""
+    from tempest.state_manager import StateManager
+    for dt in (RECORD_DTYPES if dtypes is None else dtypes):
+        with warnings.catch_warnings():
+            warnings.simplefilter("ignore")
+            sm = StateManager(2)
+            for t in range(2):
+                sm.set_current("blobs", _record_value(dt, 3, 100 * (t + 1)))
+                sm.update_current({"u": np.full((3, 2), float(t)), "logl": np.zeros(3) - t, "beta": 0.5 * t, "logz": 0.0})
+                sm.commit_current_to_history()
+            other = StateManager.from_dict(sm.to_dict())
+            snap = canon([sm._current, sm._history])
+            snap_o = canon([other._current, other._history])
+            exported = sm.to_dict()
+            sm.update_from_dict(exported)
+            steps = [("get_current('blobs')", lambda: sm.get_current("blobs")), ("get_current()", lambda: sm.get_current()),
+                     ("get_history('blobs', 0)", lambda: sm.get_history("blobs", 0)), ("get_history('blobs')", lambda: sm.get_history("blobs")),
+                     ("get_history('blobs', flat=True)", lambda: sm.get_history("blobs", flat=True)),
+                     ("get_last_history('blobs')", lambda: sm.get_last_history("blobs")), ("compute_results()", lambda: sm.compute_results()),
+                     ("compute_results() [cached]", lambda: sm.compute_results()), ("to_dict()", lambda: sm.to_dict()),
+                     ("the dictionary passed to update_from_dict", lambda: exported)]
+            for name, f in steps:
+                out = f()
+                sh = shared_with_internal(out, sm)
+                if sh and name != "the dictionary passed to update_from_dict":
+                    return (f"dtype {np.dtype(dt)}: sm.set_current('blobs', <3 records whose reference fields hold float arrays>); "
+                            f"sm.update_current(u, logl, beta, logz); sm.commit_current_to_history() (twice) -> {name} shares {sh} "
+                            f"array(s) with internal state (np.shares_memory)")
+                scribble_deep(out)
+                if canon([sm._current, sm._history]) != snap:
+                    return (f"dtype {np.dtype(dt)}: overwriting every array reachable from {name} changed _current / _history "
+                            f"(sm.set_current('blobs', <3 records>); commit x2; then scribble)")
+                if canon([other._current, other._history]) != snap_o:
+                    return f"dtype {np.dtype(dt)}: overwriting {name} of one manager changed a manager built with from_dict"
+    return None
 
 
 def canon(o):
@@ -713,11 +803,19 @@ def all_arrays(o, out=None, seen=None):
         return out
     seen.add(id(o))
     if isinstance(o, np.ndarray):
-        if o.dtype.hasobject and not o.dtype.names:
+        if o.dtype.hasobject and o.dtype.names:
+            # a record dtype with an object field (possibly nested / a sub-array of objects): field by field (views)
+            for name in o.dtype.names:
+                all_arrays(o[name], out, seen)
+        elif o.dtype.hasobject:
             for e in o.ravel():
                 all_arrays(e, out, seen)
         else:
             out.append(o)
+    elif isinstance(o, np.void):
+        if o.dtype.names:
+            for name in o.dtype.names:
+                all_arrays(o[name], out, seen)
     elif isinstance(o, dict):
         for v in o.values():
             all_arrays(v, out, seen)
@@ -768,7 +866,7 @@ def public_reads(s):
 def blob_run(kind, seed, n_iter, sampler_kind, c=None, resume=True, full=False):
     """one Sampler run with blobs of the given kind; returns a list of problems (strings)"""
     from .witnesses import _mk_sampler
-    like, kw = BLOB_KINDS[kind]
+    like, kw = {**BLOB_KINDS, **OPEN_BLOB_KINDS}[kind]
     problems = []
     with contextlib.redirect_stdout(io.StringIO()), warnings.catch_warnings():
         warnings.simplefilter("ignore")
@@ -890,12 +988,19 @@ def correspond_blobs(tier):
     rng = common.rng_for("C17.blobs")
     c = Corr("sampler-blobs", "exact oracle on the real code (bitwise deep comparison; no model)")
     reps = 1 if tier == "quick" else 4
+    # StateManager level: every dtype that holds references, through every accessor / mutator
+    for dt in RECORD_DTYPES:
+        msg = record_oracle([dt])
+        c.case(("record-dtype", str(np.dtype(dt))), True)
+        c.count("record_dtype:" + ("V+O" if np.dtype(dt).names and np.dtype(dt).hasobject else np.dtype(dt).kind))
+        if msg:
+            c.disagree(input=f"StateManager with blobs of dtype {np.dtype(dt)}", impl=msg, model="no sharing", record_dtype=str(np.dtype(dt)))
     for kind in BLOB_KINDS:
         for sk in ("tpcn", "rwm"):
             for _ in range(reps):
                 seed = rng.randint(0, 2 ** 31 - 1)
                 n_iter = rng.randint(3, 4)
-                if tier == "quick" and sk == "rwm" and kind in ("none", "scalar-auto", "subarray(float,2)"):
+                if tier == "quick" and sk == "rwm" and kind not in ("tuple(array,str)-object", "record+object-field", "structured+subarray"):
                     continue
                 try:
                     problems = blob_run(kind, seed, n_iter, sk, c, full=(tier != "quick"))
@@ -930,6 +1035,9 @@ def _plain_run(kind, seed, n_iter, sk):
 
 
 def search_blobs(hints):
+    msg = record_oracle()
+    if msg:
+        return [{"what": msg, "record_oracle": True}]
     for h in hints:
         if h.get("blob_case"):
             kind, sk, seed, n_iter = h["blob_case"]
